@@ -263,7 +263,10 @@ Residue(s) ==
        [] x = "batchRelease" -> s.br.exists
        [] x = "inprog"       -> s.wl.exists /\ s.wl.inprog
        [] x = "ctrl"         -> s.wl.exists /\ s.wl.ctrl
-       [] x = "knob"         -> s.wl.exists /\ s.wl.ktype # "none"
+       [] x = "knob"         -> s.wl.exists /\
+                                  (CASE s.wl.ktype = "canary" -> s.wl.cd.n > 0 /\ s.quiet   \* the canary Deployment is owned by the BatchRelease: garbage collected
+                                     [] s.wl.style = "bluegreen" -> s.wl.origAnno           \* saved settings still on the workload
+                                     [] OTHER -> s.wl.ktype # "none")
        [] x = "paused"       -> s.wl.exists /\ s.wl.paused
        [] x = "routeCanary"  -> s.net.route /\ (s.net.rtCanaryW >= 0 \/ s.net.rtGenRules > 0)
        [] x = "stablePin"    -> s.net.stableSel # 0
@@ -357,6 +360,14 @@ C11b(p, t, q) ==
   C11b_A(p, t, q)
   => q.br.batch <= q.br.partition
 
+\* "every pod is updated and ready" as the waiting control planes define it: every created pod is of the new
+\* revision and the available ones are within the workload's own maxUnavailable
+MaxUnavailableOf(wl) == CASE wl.unavT = "int" -> wl.unavV [] wl.unavT = "pct" -> ScaledDown(wl.unavV, wl.R) [] OTHER -> 0
+AllUpdatedAndReady(wl) ==
+  IF wl.kind = "Deployment"
+  THEN wl.stUpdated = wl.stRepl /\ wl.stAvail + MaxUnavailableOf(wl) >= wl.stRepl
+  ELSE wl.n[wl.updRev] = wl.R /\ wl.rd[wl.updRev] = wl.R
+
 \* Completed only after the workload was released (and, when waiting, fully updated and ready)
 C11c_A(p, t, q) ==
   (/\ t.base = "br" /\ p.br.exists /\ q.br.exists
@@ -367,7 +378,7 @@ C11c(p, t, q) ==
      \* the wait-for-resume policy is honoured by the canary-style and blue-green control planes only
      \* (rollout_releaseManager.go: "finalizingPolicy field is respected only when it is canary-style")
      /\ (q.br.policy = "WaitResume" /\ q.wl.exists /\ q.wl.style # "partition" /\ q.br.partition = -1 /\ ~q.br.deleting
-           => (UpdatedPods(q) = q.wl.R /\ UpdatedReadyPods(q) = q.wl.R))
+           => AllUpdatedAndReady(q.wl))
 
 \* a Ready batch whose workload degraded falls back
 C11d_A(p, t, q) ==
